@@ -823,6 +823,44 @@ pub fn c12_literal() {
         }
     }
 }
+/// C04 visitor half: a run of k prefix operators applies the operator k times (an even run cancels).
+pub fn c04_prefix() {
+    let (op, k, operand): (u8, u8, u8) = (any(), any(), any());
+    crate::sym::assume(op <= 1 && (1..=9).contains(&k) && operand <= 1);
+    let mut ctx = Context::default();
+    ctx.add_variable_from_value("b", Value::Bool(true));
+    ctx.add_variable_from_value("n", Value::Int(5));
+    let run: String = std::iter::repeat(if op == 0 { '!' } else { '-' }).take(k as usize).collect();
+    let src = match (op, operand) {
+        (0, 0) => format!("{}true", run),
+        (0, _) => format!("{}b", run),
+        (_, 0) => format!("{}(5)", run),
+        _ => format!("{}n", run),
+    };
+    let got = Program::compile(&src).expect("compiles").execute(&ctx);
+    let want = if op == 0 { Value::Bool(k % 2 == 0) } else { Value::Int(if k % 2 == 0 { 5 } else { -5 }) };
+    check!(got == Ok(want), "k prefix operators apply the operator k times");
+}
+/// C04 visitor half: a chain of n operands under && / || keeps them in source order.
+pub fn c04_chain() {
+    let (op, n): (u8, u8) = (any(), any());
+    crate::sym::assume(op <= 1 && (1..=40).contains(&n));
+    let log: Arc<Mutex<Vec<i64>>> = Arc::new(Mutex::new(Vec::new()));
+    let mut ctx = Context::default();
+    {
+        let l = log.clone();
+        // `&&` goes on while operands are true, `||` while they are false: every operand is evaluated
+        ctx.add_function("f", move |j: i64| -> bool {
+            l.lock().unwrap().push(j);
+            op == 0
+        });
+    }
+    let src = (0..n).map(|j| format!("f({})", j)).collect::<Vec<_>>().join(if op == 0 { " && " } else { " || " });
+    let got = Program::compile(&src).expect("compiles").execute(&ctx);
+    check!(got == Ok(Value::Bool(op == 0)), "the chain evaluates to the common value of its operands");
+    let calls = log.lock().unwrap().clone();
+    check!(calls == (0..n as i64).collect::<Vec<_>>(), "the operands are evaluated once each in source order");
+}
 /// C13 literal half: an int / uint literal in either radix with an optional sign evaluates to the number
 /// it denotes, or is a compile error when that number does not fit.
 pub fn c13_literal() {
@@ -1206,6 +1244,8 @@ crate::replay_only! {
     #[kani::unwind(2)] c10_unsupported_nodes: "off", "same body", "same";
     #[kani::unwind(2)] c19_unsupported_nodes: "off", "same body", "same";
     #[kani::unwind(2)] c18_structure: "off", "lists, maps and bytes through Value::json against the documented document shape", "lists of 0-3, thirteen key sets, byte strings of 0-6";
+    #[kani::unwind(2)] c04_prefix: "off", "runs of 1-9 prefix ! / - over a literal or a variable through Program::compile + execute", "k in 1..9";
+    #[kani::unwind(2)] c04_chain: "off", "chains of 1-40 logging operands under && / ||", "n in 1..40";
     #[kani::unwind(2)] c12_literal: "off", "a string / bytes literal token through Program::compile + execute against an independent decoder of the CEL literal syntax", "token text of up to 24 characters taken from the vector";
     #[kani::unwind(2)] c13_literal: "off", "int / uint literals of every sign, radix and magnitude through Program::compile + execute", "text built from the vector";
     #[kani::unwind(2)] c13_double_literal: "off", "eight double literal texts", "fixed list";
